@@ -34,6 +34,7 @@ type bEngine struct {
 	loopAbs    bool
 	allocMax   *big.Int
 	nilable    bool // pointer fields of symbolic inputs have a symbolic nil-ness
+	safetyOverflow bool // `safety overflow`: signed machine arithmetic owes its range
 	safetyIndex  bool   // `safety index`: slice index expressions are obligations
 	uptoLoop     bool   // prefix contract: the path ends at the first loop header of the function under contract
 	callbackPure string // non-empty: calls of function values are assumed not to touch polynomial storage (clause `callback`)
@@ -128,6 +129,10 @@ func (e *bEngine) symVal(st *bState, name string, t types.Type) bVal {
 		cp := Var(name+".cap", SInt)
 		st.assume(Le(ConstI(0), ln))
 		st.assume(Le(ln, cp))
+		if e.safetyOverflow {
+			// no slice has more elements than the address space allows
+			st.assume(Le(cp, Const(pow2(56))))
+		}
 		return bSlice{arr: id, len: ln, cap: cp}
 	case *types.Interface:
 		if dt, ok := e.dyn[name]; ok {
